@@ -37,6 +37,8 @@ type histStep struct {
 	Pairs  []string    `json:"pairs,omitempty"` // headers: name, expression, name, expression …
 	Path   core.B      `json:"path,omitempty"`
 	Hdr    [][2]string `json:"hdr,omitempty"`
+	Multi  bool        `json:"repeated_header_lines,omitempty"`                              // req: a name that occurs twice in hdr is sent on two lines (otherwise the later value replaces the earlier)
+	Then   [][2]string `json:"then_edit_headers_and_serve_the_same_request_again,omitempty"` // req: afterwards the header map of the very same request object is edited (value "" = deleted) and the request is served again: the outcome follows the headers it has now
 }
 
 func init() {
@@ -67,6 +69,18 @@ var hdrExprs = []string{"", "^v[0-9]$", "json", "^(a|b)$", "Chrome", "^$", "1", 
 var hdrValues = []string{"", "v1", "v22", "application/json", "a", "b", "Chrome/1", "zz", " v1", "v1 ", "\ta", "b\n", " ", "zz, v1", "v1,zz", "x,a", "a, b", "text/html, application/json", "v1;q=1", "a|b", "V1", "CHROME/1", "A", "ZZ", "\nb\n"}
 
 func genPairs(rng *rand.Rand) []string {
+	if rng.Intn(25) == 0 {
+		// many constraints at once: every one of them gates
+		var ps []string
+		for i, n := 0, 7+rng.Intn(8); i < n; i++ {
+			ps = append(ps, fmt.Sprintf("X-C%02d", i), []string{"^v1$", "", "^(a|b)$"}[rng.Intn(3)])
+		}
+		rng.Shuffle(len(ps)/2, func(i, j int) {
+			ps[2*i], ps[2*j] = ps[2*j], ps[2*i]
+			ps[2*i+1], ps[2*j+1] = ps[2*j+1], ps[2*i+1]
+		})
+		return ps
+	}
 	n := rng.Intn(3)
 	if rng.Intn(8) == 0 {
 		n = 0 // the empty set: unconstrained again (but still not served through the shortcut)
@@ -134,6 +148,27 @@ func pairsBad(ps []string) bool {
 
 func genReqHeaders(rng *rand.Rand, want []string) [][2]string {
 	var out [][2]string
+	if len(want) >= 14 {
+		// many constraints: satisfy all of them, or all but exactly one
+		miss := rng.Intn(len(want)/2 + 1)
+		for i := 0; i+1 < len(want); i += 2 {
+			if i/2 == miss && rng.Intn(2) == 0 {
+				continue
+			}
+			v := "zz"
+			if i/2 != miss {
+				re := regexp.MustCompile(want[i+1])
+				for _, cand := range hdrValues {
+					if cand != "" && re.MatchString(cand) {
+						v = cand
+						break
+					}
+				}
+			}
+			out = append(out, [2]string{want[i], v})
+		}
+		return out
+	}
 	// route-directed: try to satisfy (or just miss) the constraints of a chosen route
 	for i := 0; i+1 < len(want); i += 2 {
 		if rng.Intn(5) == 0 {
@@ -284,7 +319,34 @@ func genHistCase(rng *rand.Rand, prop string) *histCase {
 			case 3:
 				m = m[:1] + strings.ToLower(m[1:])
 			}
-			c.Steps = append(c.Steps, histStep{Op: "req", Method: m, Path: core.B(path), Hdr: genReqHeaders(rng, lastPairs[ri])})
+			rq := histStep{Op: "req", Method: m, Path: core.B(path), Hdr: genReqHeaders(rng, lastPairs[ri])}
+			if want := lastPairs[ri]; len(want) >= 2 && rng.Intn(8) == 0 {
+				// the same header on two lines
+				rq.Multi = true
+				extra := genReqHeaders(rng, want[:2])
+				if rng.Intn(2) == 0 {
+					rq.Hdr = append(extra, rq.Hdr...)
+				} else {
+					rq.Hdr = append(rq.Hdr, extra...)
+				}
+				if rng.Intn(3) == 0 {
+					rq.Hdr = append(rq.Hdr, [2]string{want[0], ""}, [2]string{want[0], ""})
+				}
+			}
+			if want := lastPairs[ri]; len(want) >= 2 && !rq.Multi && rng.Intn(8) == 0 {
+				// then the very same request is served again with a constrained header changed or removed
+				v := hdrValues[rng.Intn(len(hdrValues))]
+				if rng.Intn(3) == 0 {
+					v = ""
+				}
+				rq.Then = [][2]string{{want[0], v}}
+				if rng.Intn(2) == 0 {
+					for _, kv := range genReqHeaders(rng, want) {
+						rq.Then = append(rq.Then, kv)
+					}
+				}
+			}
+			c.Steps = append(c.Steps, rq)
 		}
 	}
 	return c
@@ -342,11 +404,11 @@ func judgeGrid(w *core.W, c *gridCase) {
 
 func runHist(r *core.Run, prop string) {
 	if prop == "C09" {
-		r.Rule("router histories (6-35 steps): registrations (static-biased pools; fully static, optional static, dynamic routes; single methods, method lists through Routes() and Any; one route in forty is 254-300 segments deep; AutoHead switched at random points - registrations go through Route/Routes/Any, which add no HEAD twin), Headers() calls on 30-70% of routes and again later (0-2 pairs, empty set, empty expression, never-matching expression, differently-cased names), requests with route-directed header sets (matching / non-matching / empty / missing values). Oracle: reference dispatch model restricted to routes whose latest constraint set passes (non-empty value matched by the expression, for every constrained header). non-trivial = distinct requests whose outcome differs from the outcome of the same request with all constraints satisfied (the constraint decided)")
+		r.Rule("router histories (6-35 steps): registrations (static-biased pools; fully static, optional static, dynamic routes; single methods, method lists through Routes() and Any; one route in forty is 254-300 segments deep; AutoHead switched at random points - registrations go through Route/Routes/Any, which add no HEAD twin), Headers() calls on 30-70% of routes and again later (0-2 pairs, empty set, empty expression, never-matching expression, differently-cased names), requests with route-directed header sets (matching / non-matching / empty / missing values; one list in twenty-five has 7-14 constraints and requests satisfy all of them or all but one; one request in eight repeats a header on two lines; one in eight is served a second time as the very same request object after a constrained header was changed or removed). Oracle: reference dispatch model restricted to routes whose latest constraint set passes (non-empty value matched by the expression, for every constrained header). non-trivial = distinct requests whose outcome differs from the outcome of the same request with all constraints satisfied (the constraint decided)")
 	} else {
 		r.Rule("router histories interleaving registrations (static, optional-static, dynamic shadowing candidates, several methods and Any), Headers() calls and requests; request paths include every route's text used as a path (raw, canonical, with '?'), instances, extra leading slashes, trailing slash, empty path, escapes. Oracle: route.Tree.Match on a twin tree per method that receives the same AddRoute / SetHeaderMatcher calls in the same order; with hooks the whole shortcut table is enumerated after every step and compared with tree matching on the router's own tree. One (thorough: three) instance with 257x257 (300x300, 363x363) fully static routes of one method, every one requested by its exact text. non-trivial = distinct requests answered through the shortcut (path equals a table key) or differing from a key only by slashes or '?'")
 	}
-	r.Assume("single-valued request headers (http.Header.Get's first-value rule is not judged)")
+	r.Assume("a header repeated on several lines is judged only where the first-value reading (http.Header.Get) and the any-value reading of \"carries a value that matches\" agree")
 	histCanaries(r)
 	n := r.N(10000, 600000)
 	if prop == "C10" {
@@ -366,6 +428,8 @@ func runHist(r *core.Run, prop string) {
 		r.GateCounter("constraint-failed-lower-priority-took-over", 50)
 		r.GateCounter("constraint-failed-not-found", 50)
 		r.GateCounter("failed-headers-call-then-requests", 50)
+		r.GateCounter("requests-with-repeated-header-lines", 50)
+		r.GateCounter("same-request-served-again-after-header-edit", 50)
 	} else {
 		r.Gate("distinct_nontrivial", r.NonTrivialCount(), 5000)
 		r.GateCounter("requests-compared", int64(n)*4)
@@ -532,40 +596,60 @@ func judgeHist(w *core.W, c *histCase, prop string) {
 			path := string(st.Path)
 			hdr := http.Header{}
 			for _, kv := range st.Hdr {
-				hdr.Set(kv[0], kv[1])
+				if st.Multi {
+					hdr.Add(kv[0], kv[1])
+				} else {
+					hdr.Set(kv[0], kv[1])
+				}
 			}
-			w.Eval()
-			hit, seen, nf = -1, nil, false
-			rec := httptest.NewRecorder()
 			req := &http.Request{Method: st.Method, URL: &url.URL{Path: path}, Header: hdr, RequestURI: path}
 			if c.RawPath {
 				req.URL.RawPath = nonCanonicalEncoding(path, si)
 			}
-			var pan interface{}
-			func() {
-				defer func() { pan = recover() }()
-				f.ServeHTTP(rec, req)
-			}()
-			if pan != nil {
-				w.Violate("serve-panic", c, fmt.Sprintf("step %d: ServeHTTP(%s %q) panicked: %v", si, st.Method, path, pan))
-				return
+			passes := 1
+			if len(st.Then) > 0 {
+				passes = 2
 			}
-			if (hit >= 0) == nf {
-				w.Violate("chain-count", c, fmt.Sprintf("step %d: %s %q: route handler ran=%v and not-found ran=%v", si, st.Method, path, hit >= 0, nf))
-				return
-			}
-			obs := observed{found: hit >= 0, routeIdx: hit, params: seen, flame: true}
-			if seen != nil {
-				obs.routeText = seen["route"]
-			}
-			w.Count("requests-compared")
-			if prop == "C09" {
-				if !judgeC09Req(w, c, si, st, models[st.Method], objs, hdr, obs) {
+			for pass := 0; pass < passes; pass++ {
+				if pass == 1 {
+					for _, kv := range st.Then {
+						if kv[1] == "" {
+							hdr.Del(kv[0])
+						} else {
+							hdr.Set(kv[0], kv[1])
+						}
+					}
+					w.Count("same-request-served-again-after-header-edit")
+				}
+				w.Eval()
+				hit, seen, nf = -1, nil, false
+				rec := httptest.NewRecorder()
+				var pan interface{}
+				func() {
+					defer func() { pan = recover() }()
+					f.ServeHTTP(rec, req)
+				}()
+				if pan != nil {
+					w.Violate("serve-panic", c, fmt.Sprintf("step %d: ServeHTTP(%s %q) panicked: %v", si, st.Method, path, pan))
 					return
 				}
-			} else {
-				if !judgeC10Req(w, c, si, st, twins[st.Method], &twinHit, objs, hdr, obs, everEvicted) {
+				if (hit >= 0) == nf {
+					w.Violate("chain-count", c, fmt.Sprintf("step %d: %s %q: route handler ran=%v and not-found ran=%v", si, st.Method, path, hit >= 0, nf))
 					return
+				}
+				obs := observed{found: hit >= 0, routeIdx: hit, params: seen, flame: true}
+				if seen != nil {
+					obs.routeText = seen["route"]
+				}
+				w.Count("requests-compared")
+				if prop == "C09" {
+					if !judgeC09Req(w, c, si, st, models[st.Method], objs, hdr, obs) {
+						return
+					}
+				} else {
+					if !judgeC10Req(w, c, si, st, twins[st.Method], &twinHit, objs, hdr, obs, everEvicted) {
+						return
+					}
 				}
 			}
 		}
@@ -581,9 +665,37 @@ func judgeHist(w *core.W, c *histCase, prop string) {
 	w.Sample(func() interface{} { return c })
 }
 
+// consPassAny: every constrained header has SOME non-empty value (on any of its lines) that matches.
+func consPassAny(cons map[string]*regexp.Regexp, h http.Header) bool {
+	for name, re := range cons {
+		ok := false
+		for _, v := range h.Values(name) {
+			if v != "" && re.MatchString(v) {
+				ok = true
+			}
+		}
+		if !ok {
+			return false
+		}
+	}
+	return true
+}
+
 func judgeC09Req(w *core.W, c *histCase, si int, st histStep, m *rmodel.Model, objs []*routeObj, hdr http.Header, obs observed) bool {
 	path := string(st.Path)
 	var best, bestAll *rmodel.Deriv
+	if m != nil && st.Multi {
+		// a header sent on several lines: "carries a value that matches" is read as the first value (what
+		// http.Header.Get yields) by the implementation and could be read as any value; the request is judged only
+		// where both readings agree
+		strict, _ := m.Dispatch(path, func(ri int) bool { return objs[ri].cons == nil || consPass(objs[ri].cons, hdr) })
+		lax, _ := m.Dispatch(path, func(ri int) bool { return objs[ri].cons == nil || consPassAny(objs[ri].cons, hdr) })
+		if (strict == nil) != (lax == nil) || (strict != nil && strict.Form != lax.Form) {
+			w.Count("unjudged:first-value-vs-any-value")
+			return true
+		}
+		w.Count("requests-with-repeated-header-lines")
+	}
 	if m != nil {
 		best, _ = m.Dispatch(path, func(ri int) bool {
 			o := objs[ri]
